@@ -405,3 +405,54 @@ def c20_result_shape(msg_id: int, shape: int, sp: int, second: bool) -> bool:
     if gen:
         return judge(r, msg_id, 5)
     return judge_single(r, msg_id, 5)
+
+
+# ---------------------------------------------------------------------------------------------
+# "For every VALID request": the decision what counts as a valid request is taken in
+# Association._serve_request (is_valid_request), before the service class is entered.  Boundary values of
+# the mandatory parameters (Message ID 0, Priority MEDIUM = 0, Action / Event Type ID 0) are valid.
+from harness import C19 as _c19  # noqa: E402  (request builders / recording association of C19)
+
+
+@harness(
+    "C20", timeout=(90, 400), shards=[{"kind": k} for k in _c19.KINDS],
+    functions=["association:Association._serve_request", "dimse_primitives:DIMSEPrimitive.is_valid_request",
+               "sop_class:uid_to_service_class", "service_class:*.SCP"],
+    stubs=["as C19 serve_request_context: recording DIMSE / ACSE / DUL, _abort_blocking recorded, every intervention event "
+           "has a recording handler returning a minimal legal result"],
+    bounds="one request of each of the 11 DIMSE request types (shard) on an accepted context, served by the real "
+           "Association._serve_request: Message ID ANY int 0..65535 (solver-symbolic), Priority any of 0, 1, 2, Action / Event "
+           "Type ID ANY int 0..65535",
+    outside="handler behaviour (the other C20 harnesses), invalid requests")
+def c20_valid_request_served(msg_id: int, priority: int, type_id: int) -> bool:
+    """
+    pre: 0 <= msg_id <= 65535
+    pre: 0 <= priority <= 2
+    pre: 0 <= type_id <= 65535
+    post: _ == True
+    """
+    kind = shard("kind", "C_ECHO")
+    with untraced():
+        assoc = _c19.make_assoc(_c19.MODE_ACCEPTOR)
+        calls = []
+        _c19.bind_all(assoc, calls)
+        msg = _c19.mk_request(kind)
+        if kind == "C_MOVE":
+            assoc.ae.associate = None  # never reached: the handler reports an unknown destination
+        assoc._accepted_cx = _c19._accepted(_c19.sop_of(kind), 3, 5, False)
+    msg.MessageID = msg_id
+    if kind in ("C_STORE", "C_FIND", "C_GET", "C_MOVE"):
+        msg.Priority = priority
+    if kind == "N_ACTION":
+        msg.ActionTypeID = type_id
+    if kind == "N_EVENT_REPORT":
+        msg.EventTypeID = type_id
+    msg._context_id = 3
+    assoc._serve_request(msg, 3)
+    sent = assoc.dimse.sent
+    if len(calls) != 1 or len(assoc.aborts) != 0 or len(sent) < 1:
+        return False
+    for s in sent:
+        if s.context_id != 3 or not (s.rsp_id == msg_id):
+            return False
+    return True
